@@ -10,7 +10,7 @@ VALIDATION_CASES = {'quick': 60, 'thorough': 200}
 TIME_BUDGET = {'quick': 900, 'thorough': 3300}
 OPTS = {'quick': {'hash_order': 'insertion', 'step_budget': 3000000}, 'thorough': {'hash_order': 'insertion', 'step_budget': 6000000}}
 BOUNDS = {
-    'quick': 'corpora of 1-2 files with 0-3 lines in total (blank lines included), 0-2 words per line, words of 1-2 symbolic letters over {a, b}; '
+    'quick': 'corpora of 1-2 files with 0-3 lines in total (blank lines included), 0-2 words per line, words of 1-2 symbolic letters over {a, b} (character modes: {a, b, #}); '
              'max_size in {None, 0, 1, 2, 5}, max_sequences in {None, 1, 2}, word mode and character mode (1-grams, 3-grams), '
              'num_threads in {0, 2} (worker threads sequentialised, the order in which their results reach the reducer is '
              'arbitrary for corpora of <= 2 lines); save -> load; get_closest for a symbolic query of 1-2 letters',
@@ -59,11 +59,11 @@ def setup_machine(machine, shape, opts):
     machine.pending_threads = []
 
 
-def word_value(ctx, name, nletters):
+def word_value(ctx, name, nletters, alpha=(0x61, 0x62)):
     s = ctx.in_string(name, [1] * nletters)
     if ctx.concrete is None:
         for c in s.chars():
-            ctx.assume(z3.Or(c.v == 0x61, c.v == 0x62))
+            ctx.assume(z3.Or(*[c.v == a for a in alpha]))
     return s.chars()
 
 
@@ -113,7 +113,8 @@ def run(ctx, shape, opts):
     for li, line in enumerate(lay):
         ws = []
         for wi, nl in enumerate([1 + ((li + wi) % 2) for wi in range(line[0])]):
-            ws.append(word_value(ctx, 'w%d_%d' % (li, wi), nl))
+            # character modes also count punctuation: '#' is in the alphabet there (it starts a line of the saved file)
+            ws.append(word_value(ctx, 'w%d_%d' % (li, wi), nl, (0x61, 0x62) if shape['mode'] == 'word' else (0x61, 0x62, 0x23)))
         lines_words.append(ws)
 
     def line_string(ws):
